@@ -307,7 +307,7 @@ func worker(sh *ev.Shard) {
 	for _, pl := range pls {
 		sh.Cur("scenario", pl.sc.String())
 		mk := mkHarness(pl.sc)
-		st := vsync.Explore(vsync.Config{Preemptions: pl.pb, Deviations: pl.db, Shard: sh.Index, Of: sh.N, ShardDepth: 2}, mk)
+		st := vsync.Explore(vsync.Config{Preemptions: pl.pb, Deviations: pl.db, Shard: sh.Index, Of: sh.N, ShardDepth: 2, OnExec: func(*vsync.Exec) { sh.Tick() }}, mk)
 		if st.Diverged > 0 {
 			sh.Count("replay_diverged", st.Diverged)
 		}
